@@ -23,13 +23,17 @@ inline Plan Gen(uint64_t seed)
    // latewait=1 (early shutdown only): one extra thread is blocked in UnregisterClient() while the pool is shut down underneath it (ThreadPool::Shutdown() wakes such waiters)
    const int lf = cfg.oneIn(6) ? (int) cfg.below(3) : -1;
    const int lateWait = ((early)&&(cfg.oneIn(2))) ? 1 : 0;
-   p.push_back("cfg prop=C19 maxthreads=" + I(maxThreads) + " clients=" + I(clients) + " early=" + I(early) + " handleryields=" + I(cfg.below(3)) + " lf=" + I(lf) + " latewait=" + I(lateWait) + sched);
+   // chain=1: handlers submit follow-up Messages for their own client from inside the handler; twopools=1: a second pool exists and M<c> moves client c straight from
+   // the pool it is registered with to the other one (SetThreadPool(&other): unregister -- waiting for its handlers -- then register)
+   const int chain = Rng(seed, "chain").oneIn(4) ? 1 : 0, twoPools = Rng(seed, "twopools").oneIn(4) ? 1 : 0;
+   p.push_back("cfg prop=C19 chain=" + I(chain) + " twopools=" + I(twoPools) + " maxthreads=" + I(maxThreads) + " clients=" + I(clients) + " early=" + I(early) + " handleryields=" + I(cfg.below(3)) + " lf=" + I(lf) + " latewait=" + I(lateWait) + sched);
    for (int s=1; s<=submitters; s++)
    {
       std::string x = "prog " + I(s); const int n = 1 + (int) wl.below(6);
       for (int i=0; i<n; i++)
       {
          const uint32_t k = wl.below(20); const int c = (int) wl.below((uint32_t) clients);
+         if ((twoPools)&&(k >= 17)&&(wl.oneIn(2))) {x += " M" + I(c); continue;}
          if (k < 12) x += " S" + I(c) + "x" + I(wl.oneIn(12) ? (9 + (int) wl.below(12)) : (1 + (int) wl.below(4))); else if (k < 15) x += " U" + I(c); else if (k < 17) x += " R" + I(c); else x += " Y";
       }
       p.push_back(x);
@@ -45,7 +49,7 @@ struct Shared
    std::vector<uint32> accepted[8];                 // per client: what-codes accepted by SendMessageToThreadPool, in acceptance order (acceptance is scheduler-atomic with the call's return)
    std::vector<uint32> handled[8];                  // per client: what-codes whose handler has EXITED, in order
    bool registered[8]; bool unregisterReturned[8]; uint64_t unregisterReturnedAt[8];
-   int handlerYields = 1; int maxThreads = 1; bool poolGone = false;
+   int handlerYields = 1; int maxThreads = 1; bool poolGone = false; bool chain = false; int numPools = 1; uint32 chainSeq[8] = {0,0,0,0,0,0,0,0};
    uint32 nextSeq[8][8];                            // [client][submitter]
    volatile int submittersRunning = 0;
    RunResult * res = NULL;
@@ -63,9 +67,15 @@ public:
       if (!sh.registered[_idx]) thr::ReportAndExit("handler_after_unregister", "a handler of client " + I(_idx) + " started after its UnregisterClient had returned");
       if (sh.inHandler[_idx]++) thr::ReportAndExit("client_handled_concurrently", "two pool threads are inside the handler of client " + I(_idx) + " at the same time");
       if (++sh.concurrent > sh.maxConcurrent) sh.maxConcurrent = sh.concurrent;
-      if (sh.concurrent > sh.maxThreads) thr::ReportAndExit("thread_limit_exceeded", I(sh.concurrent) + " handlers run at once but the pool was created for " + I(sh.maxThreads) + " threads");
+      if (sh.concurrent > sh.maxThreads*sh.numPools) thr::ReportAndExit("thread_limit_exceeded", I(sh.concurrent) + " handlers run at once but the " + I(sh.numPools) + " pool(s) were created for " + I(sh.maxThreads) + " threads each");
       HEvent e = {_idx, m()->what, me, true, ++sh.order}; sh.log.push_back(e);
       for (int i=0; i<sh.handlerYields; i++) thr::Yield();
+      if ((sh.chain)&&((m()->what % 5) == 0)&&((m()->what % 1000000) < 900000)&&(sh.chainSeq[_idx] < 6))
+      {
+         // a handler that hands its own client a follow-up (the usual way of chaining work): it is accepted behind everything accepted so far and handled like any other Message
+         const uint32 w = (uint32)(_idx*1000000 + 900000) + sh.chainSeq[_idx]++;
+         if (SendMessageToThreadPool(GetMessageFromPool(w)).IsOK()) {sh.accepted[_idx].push_back(w); sh.res->stats.inc("msgs_accepted"); sh.res->stats.inc("p.followup_submitted_from_inside_handler");}
+      }
       sh.handled[_idx].push_back(m()->what);
       HEvent x = {_idx, m()->what, me, false, ++sh.order}; sh.log.push_back(x);
       sh.concurrent--; sh.inHandler[_idx]--;
@@ -112,6 +122,9 @@ inline void Exec(const Plan & plan, RunResult & res)
       {
          const int lf = (int) cfg.i("lf", -1); const bool lateWait = (early)&&(cfg.i("latewait", 0) != 0);
          FaultyPool pool((uint32) sh.maxThreads, lf);
+         const bool twoPools = (cfg.i("twopools", 0) != 0)&&(lf < 0)&&(!early);   // (pool moves are exercised in orderly runs only)
+         FaultyPool pool2((uint32) sh.maxThreads, -1);
+         sh.chain = (cfg.i("chain", 0) != 0); sh.numPools = twoPools ? 2 : 1;
          for (int i=0; i<nclients; i++) {cls.push_back(new Client(&pool, i)); sh.registered[i] = true; sh.unregisterReturned[i] = false;}
          if (getenv("VSIM_DEBUG_ADDR")) {void * probe = malloc(64); fprintf(stderr, "ADDR pool=%p client0=%p malloc64=%p stack=%p pid=%d allocated=%zu\n", (void *) &pool, (void *) cls[0], probe, (void *) &probe, (int) getpid(), __sanitizer_get_current_allocated_bytes()); free(probe);}
          Mutex clientOpLock;   // register/unregister/submit on ONE client object are serialised by the caller (an IThreadPoolClient is not itself thread-safe); different clients proceed in parallel
@@ -152,6 +165,15 @@ inline void Exec(const Plan & plan, RunResult & res)
                      if (sh.handled[c].size() < acceptedBefore.size()) thr::ReportAndExit("unregister_returned_early", "UnregisterClient of client " + I(c) + " returned while only " + U(sh.handled[c].size()) + " of its " + U(acceptedBefore.size()) + " accepted Messages had been handled");
                      if (sh.inHandler[c] != 0) thr::ReportAndExit("unregister_returned_early", "UnregisterClient of client " + I(c) + " returned while a pool thread was still inside its handler");
                      sh.registered[c] = false; res.stats.inc("unregisters");
+                  }
+                  else if (op[0] == 'M')
+                  {
+                     if (!twoPools) continue;
+                     DECLARE_MUTEXGUARD(*perClient[(size_t) c]);
+                     if (!sh.registered[c]) continue;
+                     ThreadPool * cur = cls[(size_t) c]->GetThreadPool(); ThreadPool * other = (cur == &pool) ? (ThreadPool *) &pool2 : (ThreadPool *) &pool;
+                     cls[(size_t) c]->SetThreadPool(other);   // leaves the old pool (waits for this client's handlers there) and joins the other one
+                     sh.registered[c] = (cls[(size_t) c]->GetThreadPool() != NULL); res.stats.inc("p.client_moved_between_pools");
                   }
                   else if (op[0] == 'R')
                   {
@@ -197,6 +219,12 @@ inline void Exec(const Plan & plan, RunResult & res)
             }
          }
          else {res.stats.inc("p.shutdown_with_registered_clients"); if (sh.concurrent > 0) res.stats.inc("p.shutdown_with_handlers_running"); size_t out = 0; for (int c=0; c<nclients; c++) out += sh.accepted[c].size() - sh.handled[c].size(); if (out > 0) res.stats.inc("p.shutdown_with_messages_outstanding");}
+         if ((!lateWait)&&(!early))
+         {
+            // the way every pool is shut down when the process ends (AbstractObjectRecycler::GlobalFlushAllCachedObjects()): flush again and again until nothing is left to flush
+            for (int round=0; ; round++) {const uint32 n = pool.ShutdownNow() + pool2.ShutdownNow(); if (n == 0) break; if (round >= 20) thr::ReportAndExit("shutdown_never_completes", "flushing the pool (= ThreadPool::Shutdown(), repeated until it reports nothing left, as the global flush at process exit does) still reports " + U(n) + " items after " + I(round+1) + " rounds");}
+            res.stats.inc("p.shutdown_by_repeated_flush");
+         }
          if (lateWait)
          {
             (void) pool.ShutdownNow();                        // what ~ThreadPool does first; the object itself must outlive the thread that is still inside UnregisterClient()
@@ -212,9 +240,18 @@ inline void Exec(const Plan & plan, RunResult & res)
    // per client: handled == accepted (exactly once, in acceptance order); with an early shutdown, handled must be a prefix of accepted
    for (int c=0; c<nclients; c++)
    {
+      // Submissions by the submitter threads are serialised per client by the harness, so their acceptance order is known exactly; a follow-up sent from inside a handler
+      // is not serialised against them (its place relative to a concurrent submission is the pool's choice), so the two kinds are compared as separate sequences.
+      for (int kind=0; kind<2; kind++)
+      {
+         std::vector<uint32> a, h;
+         for (uint32 w : sh.accepted[c]) if ((((w % 1000000) >= 900000) ? 1 : 0) == kind) a.push_back(w);
+         for (uint32 w : sh.handled[c])  if ((((w % 1000000) >= 900000) ? 1 : 0) == kind) h.push_back(w);
+         if (h.size() > a.size()) thr::ReportAndExit("message_handled_twice_or_invented", "client " + I(c) + ": " + U(h.size()) + " handler calls for " + U(a.size()) + " accepted " + (kind ? "follow-up " : "") + "Messages");
+         for (size_t i=0; i<h.size(); i++) if (h[i] != a[i]) thr::ReportAndExit("handled_out_of_order", "client " + I(c) + ": " + (kind ? "follow-up " : "") + "handler call #" + U(i) + " got Message " + U(h[i]) + " but Message " + U(a[i]) + " was accepted at that position");
+      }
       const std::vector<uint32> & a = sh.accepted[c], & h = sh.handled[c];
       if (h.size() > a.size()) thr::ReportAndExit("message_handled_twice_or_invented", "client " + I(c) + ": " + U(h.size()) + " handler calls for " + U(a.size()) + " accepted Messages");
-      for (size_t i=0; i<h.size(); i++) if (h[i] != a[i]) thr::ReportAndExit("handled_out_of_order", "client " + I(c) + ": handler call #" + U(i) + " got Message " + U(h[i]) + " but Message " + U(a[i]) + " was accepted at that position");
       if ((!early)&&(h.size() != a.size())) thr::ReportAndExit("message_never_handled", "client " + I(c) + ": " + U(a.size()) + " Messages accepted, " + U(h.size()) + " handled, and the client was unregistered normally");
    }
    g_sh = NULL;
